@@ -15,6 +15,18 @@ CHECKS = {
         "oracle": "brute-force k-NN in float64 over the model's live set (order, per-id score, uniqueness, count, nothing-better-left-out, rank-wise score multiset); Remove error iff id not live; failing Add/search must error",
         "assumptions": ["distinct non-zero ids (property's domain)", "float32 accumulation error model of DESIGN 3.2"],
     },
+    "C19": {
+        "test": "TestVerif_C19",
+        "level": "exploration",
+        "technique": "property-based testing (rapid): reference fold over id->scores plus prefix / permutation / non-mutation / no-panic predicates on generated result lists and score maps",
+        "level_text": "Generated-input search: result lists (0..300 entries, duplicate ids, ties, +-Inf, NaN, negatives), every aggregation kind for both modalities, k and cutoff in Z, pairs of score maps (disjoint/nested/equal/one empty), weights and RRF K are generated; outputs are compared with a reference fold and algebraic predicates. Sampling, not exhaustive.",
+        "level_note": "Order clauses are asserted only on NaN-free outputs (a comparison sort has no defined order with NaN); with NaN only 'no panic, ids preserved' is asserted. RRF ranks are 0-based as pinned by the repository's own fusion_test; tie groups may receive any ranks of their interval.",
+        "quick": {"checks": 20000, "shards": 1, "timeout": 600},
+        "thorough": {"checks": 150000, "shards": 16, "timeout": 3000},
+        "rule": "rapid-generated (list, permutation, k, cutoff, vector map, text map, weights, K); non-trivial = list with >= 2 ids of which >= 1 occurs more than once, or maps with a non-empty symmetric difference; distinct by FNV-64 of the case JSON",
+        "oracle": "reference fold id->[scores] (float64 sum / max / mean over occurrences, float32-accumulation tolerance), best-first order, permutation invariance, LimitResults = first min(k',len), Autocut index in [0,len] and AutocutResults a prefix (all when -1), fusion formulas over union / intersection with tie-interval RRF ranks and fixed total rank mass, inputs bit-identical afterwards, mergeResults = max per id",
+        "assumptions": ["0-based RRF ranks (pinned by fusion_test.go)"],
+    },
     "C18": {
         "test": "TestVerif_C18",
         "level": "exploration",
